@@ -21,6 +21,23 @@ Shapes the generator must produce (each has a required branch counter):
     direct oracle pushes the unconditioned distribution through closed-form detector kernels;
   * a long-lived `Simulator` / `Processor` that already answered another request (other heralds, filter,
     post-selection, detectors, input, noise) before the judged one: the answer must not depend on the history.
+Further batches (each with required branch counters):
+  * trimming: fast-path configurations (no detectors / PNR detectors) run at the DEFAULT precision and at explicit
+    non-zero precisions, with member weights spread over orders of magnitude and weakly coupling circuits, so that both
+    thresholds (`_preprocess_svd`, `list_tensor_product`) bite; the answer is compared (a) with the exact
+    specification within the distance PROVED for the trimming model (`physical_perf_trim_exact`,
+    `logical_perf_trim_bound`, `results_trim_bound`; trimmed mass computed exactly by the driver), (b) tightly with the
+    trimming model itself (thresholds as coded) unless a compared quantity sits within 1e-6 (relative) of its
+    threshold; direct oracle: selection-free simulator at precision 0 conditioned in Python, with a Lean-independent
+    a-priori bound of what the thresholds can remove;
+  * sessions: one `Simulator` / `Processor` driven through 2–4 queries with selection changes in between through every
+    API (`set_selection` with some arguments None, `set_heralds`, `clear_heralds`, `set_postselection`,
+    `clear_postselection`, filter, `keep_heralds`; processor: `set_postselection` / `clear_postselection` / filter);
+    every query is compared with the Lean state machine `PM.C04.simStep` / `procStep` (concrete backend mask, sorted
+    walk), which the driver also compares with the stateless model of the selection in force (instances of
+    `simulator_selection_history_independent` / `processor_selection_history_independent`); direct oracle: a FRESH
+    object given only the selection in force;
+  * superposed inputs are now compared with the code-shaped model `PM.C04.probsSvdGen` as well as the specification.
 The real code runs in a separate worker process: a native crash (or a hang) of the code under test on a legal
 input is reported as a violation with the configuration that triggers it instead of killing the harness.
 """
@@ -696,9 +713,9 @@ def lean_request(cfg, real, eff_filter):
                 members.append({"w": core.rat(mb["w"]), "terms": [{"coef": ["1", "0"], "groups": mb["groups"]}]})
         # the rescaled coefficient of a Fock member with bunched photons is irrational; its *distribution*
         # is what matters and `probsSV` normalises by svNorm2, so coef 1 is exact for single-term members
-        return {"op": "sim", "m": cfg["m"], "U": U, "members": members,
-                "cond": {"heralds": cfg["heralds"], "ps": cfg["psj"], "minPhotons": eff_filter + H,
-                         "keepHeralds": cfg["keep"]}}
+        return {"op": "c04gen", "m": cfg["m"], "U": U, "members": members,
+                "cfg": {"heralds": cfg["heralds"], "ps": cfg["psj"], "filter": eff_filter, "keepHeralds": cfg["keep"],
+                        "pnr": True}}
     return {"op": "c04", "m": cfg["m"], "U": U,
             "members": [{"w": core.rat(mb["w"]), "groups": mb["groups"]} for mb in real["members"]],
             "cfg": {"heralds": cfg["heralds"], "ps": cfg["psj"], "filter": eff_filter, "keepHeralds": cfg["keep"],
@@ -1404,7 +1421,11 @@ def judge(chk, cfg):
     if "err" in rep:
         return ("broken", "lean-rejects", f"driver rejected the request: {rep['err']}")
     obs = real["obs"]
-    if req["op"] == "c04":
+    if req["op"] in ("c04", "c04gen"):
+        if req["op"] == "c04gen":
+            chk.branch("superposed-input")
+            if cfg["heralds"] and float(Fraction(rep["spec"]["retained"])) > 1e-13:
+                chk.branch("superposed-input-under-mask-retained")
         spec = {"results": dist_of_json(rep["spec"]["results"]), "phys": Fraction(rep["spec"]["phys"]),
                 "logical": Fraction(rep["spec"]["logical"])}
         model = {"results": dist_of_json(rep["model"]["results"]), "phys": Fraction(rep["model"]["phys"]),
@@ -1826,7 +1847,7 @@ REQUIRED = ["mask-path", "no-heralds", "herald-in-the-middle", "adjacent-heralds
             "post-selection", "several-groups-under-mask", "group-smaller-than-heralds",
             "budget-capped-by-n_ext", "input-below-filter", "filter-below-photon-number",
             "keep-heralds", "drop-heralds", "noisy-source", "automatic-filter", "interleave",
-            "superposed-input", "nothing-retained", "mask-path-with-retained-mass", "rejected-input",
+            "superposed-input", "superposed-input-under-mask-retained", "nothing-retained", "mask-path-with-retained-mass", "rejected-input",
             "evolve", "evolve-distribution-compared",
             # shapes added after the seeded-change review
             "heralds-declared-out-of-order", "descending-heralds-free-mode-after",
@@ -1853,13 +1874,21 @@ def run(chk: core.Check):
     chk.rule = ("random configurations through Simulator.probs_svd (tagged mixtures, a few superposed members) and "
                 "Processor.probs() (perfect and noisy sources, explicit and automatic filter) at precision 0, heralds "
                 "declared in any order, detector layouts none / PNR / threshold / pseudo-PNR / mixed, fresh objects and "
-                "objects that already answered another request; "
+                "objects that already answered another request; fast-path configurations at the default and at explicit "
+                "non-zero precisions (trimming model and proved bounds); sessions of 2-4 queries on one Simulator / "
+                "Processor with selection changes in between (state-machine model); "
                 "distinct = distinct (entry point, engine, m, heralds with values in declaration order, filter, "
                 "post-selection, keep_heralds, input shape, detector layout, reused or not) signatures; "
                 "non-trivial = at least one heralded mode (the mask path is active)")
     chk.assumptions = [
-        "probability trimming of _preprocess_svd / list_tensor_product is not modelled: the check runs at "
-        "precision=0 (threshold min_p=1e-16); measured on the clean tree, default precision differs by <= 2e-4",
+        "probability trimming is modelled for the fast path without detectors / with PNR detectors (trim batch: default "
+        "and explicit precisions); layouts with a non-PNR detector, superposed inputs, evolve and the sessions run at "
+        "precision=0 (threshold min_p=1e-16)",
+        "trim batch: when a compared quantity lies within 1e-6 (relative) of its threshold the floating-point comparison "
+        "of the implementation may fall on either side: only physical_perf is compared for such a case (counter "
+        "trim-threshold-tie)",
+        "sessions keep the circuit, the input of a processor, noise and precision fixed (C05's subject) and never "
+        "configure a herald the detector on its mode cannot report",
         "the engines' unconditioned distributions are C02's subject; here the oracle is the exact Fock-space "
         "evaluation on the matrix the circuit reports, and the direct oracle uses a selection-free Simulator",
         "input mixtures of Processor.probs() are taken from Processor.source_distribution (the source model is C06)",
@@ -1890,9 +1919,9 @@ def run(chk: core.Check):
             handle(chk, gen_sim_config(rng, 4, superposed=True))
         for _ in range(n_proc):
             handle(chk, gen_proc_config(rng, max_m))
-        for _ in range(chk.pick(320, 2600)):
+        for _ in range(chk.pick(320, 2000)):
             handle(chk, gen_trim_config(rng, max_m))
-        for _ in range(chk.pick(220, 1800)):
+        for _ in range(chk.pick(220, 1400)):
             handle(chk, gen_session_config(rng, max_m))
         malformed(chk, rng, chk.pick(30, 300))
         chk.extra["real_code_worker_crashes"] = chk.real.crashes
